@@ -268,5 +268,61 @@ func TestGenC09(t *testing.T) {
 		}
 		q.stat("distinct_nontrivial", 1)
 	}
+	// after a timer-driven retransmission the send loop waits for the peer's answer to it (syncer.waitForSync, up to
+	// three resend timeouts) and takes no new data meanwhile: one of five slots in use, every answer lost
+	for _, n := range []int{2, 5} {
+		cfg := simCfg{id: fmt.Sprintf("syncwait%d", n), n: uint8(n), static: time.Second}
+		l.keep = l.keep[:0]
+		l.o.line("BEGIN %s n=%d chunk=0", cfg.id, n)
+		pan := bubble(t, func(t *testing.T) {
+			l.start = time.Now()
+			l.last = 0
+			base := runtime.NumGoroutine()
+			s := newSim(t, l, cfg)
+			if !s.cleanHandshake() {
+				q.fail("c09:handshake", cfg.id)
+				s.finish(base)
+				return
+			}
+			s.send(0, []byte{1, 1})
+			for k := 0; k < 6; k++ { // 1.5 s with a mute peer: one retransmission at 1 s
+				for s.chanLen(0) > 0 {
+					s.op(0, "drop")
+				}
+				s.advance(250 * time.Millisecond)
+			}
+			retx := 0
+			for _, e := range l.keep {
+				if strings.HasPrefix(e, "TX 0 02") {
+					retx++
+				}
+			}
+			t1 := time.Now()
+			s.send(0, []byte{2, 2})
+			sb, _ := s.busy(0)
+			waited := time.Duration(0)
+			for k := 0; k < 80 && sb; k++ {
+				for s.chanLen(0) > 0 {
+					s.op(0, "drop")
+				}
+				s.advance(100 * time.Millisecond)
+				sb, _ = s.busy(0)
+				waited = time.Since(t1)
+			}
+			q.check(waited == 0, "c09:blocked-with-free-window:sync-wait-after-timer-resend", func() string {
+				return fmt.Sprintf("n=%d, resend timeout 1 s, peer mute: message 1 sent at 0 (transmitted %d times by 1.5 s), Send of message 2 at 1.5 s with 1 of %d slots in use returned only after %v", n, retx, n, waited)
+			})
+			q.stat("sync_wait_scenarios", 1)
+			synctest.Wait()
+			for _, g := range s.finish(base) {
+				q.fail("c12:leak:"+g, cfg.id)
+			}
+		})
+		l.o.line("END %s", cfg.id)
+		if pan != "" {
+			q.fail("gbn:bubble-panic", cfg.id+": "+truncate(pan, 300))
+		}
+		q.stat("distinct_nontrivial", 1)
+	}
 	q.sample(fmt.Sprintf("n=%v x {static, adaptive}: n Sends, one more blocked, 7 s mute, one ACK; last events %v", ns, firstN(l.keep, 14)))
 }
